@@ -154,15 +154,26 @@ def Legend.segmentLength (l : Legend) : Nat :=
 /-- Left-pad with zeros to width `n`. -/
 def zpad (n : Nat) (s : String) : String := String.ofList (List.replicate (n - s.length) '0') ++ s
 
-/-- Python `'%.nf' % x` on an exact value (round half to even on the decimal expansion). -/
-def fmtFixed (x : Rat) (n : Nat) : String :=
+/-- Token level of `'%.nf' % x`: the sign and the magnitude in units of `10^-n`, rounded half to
+    even on the exact value (what C's `printf` does with the exact binary value of a float). -/
+def fmtToken (x : Rat) (n : Nat) : Bool × Nat :=
   let neg := decide (x < 0)
   let a := if neg then -x else x
-  let m : Nat := (Py.round (a * Py.pow10 n)).toNat
-  let ip := m / 10 ^ n
-  let fp := m % 10 ^ n
+  (neg, (Py.round (a * Py.pow10 n)).toNat)
+
+/-- The number a label token denotes. -/
+def tokenValue (t : Bool × Nat) (n : Nat) : Rat :=
+  (if t.1 then -1 else 1) * ((t.2 : Rat) / Py.pow10 n)
+
+/-- Character level: sign, integer digits, `.`, `n` zero-padded fraction digits. -/
+def renderToken (t : Bool × Nat) (n : Nat) : String :=
+  let ip := t.2 / 10 ^ n
+  let fp := t.2 % 10 ^ n
   let s := toString ip ++ (if n = 0 then "" else "." ++ zpad n (toString fp))
-  if neg then "-" ++ s else s
+  if t.1 then "-" ++ s else s
+
+/-- Python `'%.nf' % x` on an exact value. -/
+def fmtFixed (x : Rat) (n : Nat) : String := renderToken (fmtToken x n) n
 
 /-- `seg_txt[0] = '<' + seg_txt[0]; seg_txt[-1] = '>' + seg_txt[-1]` (sequential, so a single
     label gets both marks). -/
@@ -245,6 +256,50 @@ def Legend.mesh (l : Legend) : Except Err (Nat × Nat × List RGB) :=
           (l.meshColors sc).length = 2 * (l.segmentLength + 1) then
         .ok (l.segmentLength, 2 * (l.segmentLength + 1), l.meshColors sc)
       else .error .assert
+
+/-! ### graphic.py `GraphicContainer` (without a data type) -/
+
+/-- `GraphicContainer(values, min_point, max_point, legend_parameters)`: builds its own `Legend`
+    and then fills in the default 3D dimensions from the bounding box (`min_point`, `max_point` as
+    x/y pairs): segment height = box height / max(count, 8) (vertical; box width if that is 0), or
+    box width / (2 max(count, 8)) (horizontal; box height / max(count, 8) if that is 0) — the setter
+    asserts it positive; the default width of a vertical legend becomes half the segment height. -/
+structure Graphic where
+  legend : Legend
+  deriving DecidableEq, Repr
+
+/-- The segment height a `GraphicContainer` uses (`count` = the legend's segment count). -/
+def graphicSegH (p : Par) (count : Nat) (minX minY maxX maxY : Rat) : Rat :=
+  let denom : Rat := if 8 ≤ count then (count : Rat) else 8
+  match p.segHeight with
+  | some h => h
+  | none =>
+    if p.vertical then
+      (if (maxY - minY) / denom = 0 then (maxX - minX) / denom else (maxY - minY) / denom)
+    else
+      (if (maxX - minX) / (denom * 2) = 0 then (maxY - minY) / denom
+       else (maxX - minX) / (denom * 2))
+
+/-- The stored segment width a `GraphicContainer` leaves behind. -/
+def graphicSegW (p : Par) (h : Rat) : Option Rat :=
+  match p.segWidth with
+  | some w => some w
+  | none => if p.vertical then some (h / 2) else none
+
+/-- The legend with the container's dimensions filled in. -/
+def Legend.withDims (l : Legend) (h : Rat) (w : Option Rat) : Legend :=
+  { l with par := { l.par with segHeight := some h, segWidth := w } }
+
+def Graphic.make (values : List Rat) (p : Par) (minX minY maxX maxY : Rat) : Except Err Graphic :=
+  match Legend.make values p with
+  | .error e => .error e
+  | .ok l =>
+    if graphicSegH p l.segCount minX minY maxX maxY ≤ 0 then .error .assert
+    else .ok ⟨l.withDims (graphicSegH p l.segCount minX minY maxX maxY)
+      (graphicSegW p (graphicSegH p l.segCount minX minY maxX maxY))⟩
+
+/-- `GraphicContainer.value_colors`. -/
+def Graphic.valueColors (g : Graphic) : Except Err (List RGB) := g.legend.valueColors
 
 /-! Unit tests: the three docstring examples of legend.py. -/
 
